@@ -492,15 +492,19 @@ class Runtime:
             rs = pattern.RewriteRuleSet(rewriter._DEFAULT_REWRITE_RULES)
         elif name == "default_commute":
             rs = pattern.RewriteRuleSet(rewriter._DEFAULT_REWRITE_RULES, commute=True)
-        elif name.startswith("single:"):
-            r = getattr(rc, name.split(":", 1)[1])
-            rs = pattern.RewriteRuleSet(list(r) if isinstance(r, (list, tuple, pattern.RewriteRuleSet)) else [r])
-        elif name.startswith("group:"):
+        elif name.startswith(("single:", "group:")):
             names = name.split(":", 1)[1].split(",")
             rules = []
             for n in names:
                 r = getattr(rc, n)
-                rules.extend(list(r) if isinstance(r, (list, tuple, pattern.RewriteRuleSet)) else [r])
+                if callable(r) and not isinstance(r, pattern.RewriteRule):
+                    r = r()   # e.g. fuse_hardswish_rules() returns a rule set
+                if isinstance(r, pattern.RewriteRuleSet):
+                    rules.extend(r.rules)
+                elif isinstance(r, (list, tuple)):
+                    rules.extend(r)
+                else:
+                    rules.append(r)
             rs = pattern.RewriteRuleSet(rules)
         elif name.startswith("fusion:"):
             import importlib
